@@ -177,12 +177,19 @@ static void trace_case(char** tok, int nt)
   for (int i = 4; i < nt; ++i) {
     char     op = tok[i][0];
     uint32_t n  = tok[i][1] ? (uint32_t)strtoul(tok[i] + 1, 0, 10) : 0;
-    unsigned char* b = (unsigned char*)malloc((size_t)n + 1);
+    // a write / amend of n >= N bytes (anything up to 2^32-1) must be refused without touching the source: it gets
+    // a source block of N + 64 bytes that ends at a PROT_NONE page (constant bytes, the data counter does not
+    // advance; the model driver does the same with its N-byte stand-in, Properties_C04_huge.v), so an implementation
+    // that accepts it faults (OOB-CRASH) instead of reading 4 GiB.  Sizes below N are served as before.
+    int            big = (op == 'W' || op == 'A') && n >= N;
+    unsigned char* b   = big ? (unsigned char*)g_alloc((size_t)N + 64, 1) : (unsigned char*)malloc((size_t)n + 1);
+    if (!b) { printf("NO-MEM"); break; }
+    if (big) memset(b, 0x5A, (size_t)N + 64);
     if (i > 4) putchar(' ');
     switch (op) {
-    case 'W': fill(b, n); printf("w=%u", zix_ring_write(ring, b, n)); break;
+    case 'W': if (!big) fill(b, n); printf("w=%u", zix_ring_write(ring, b, n)); break;
     case 'B': tx = zix_ring_begin_write(ring); printf("b"); break;
-    case 'A': fill(b, n); printf("a=%d", (int)zix_ring_amend_write(ring, &tx, b, n)); break;
+    case 'A': if (!big) fill(b, n); printf("a=%d", (int)zix_ring_amend_write(ring, &tx, b, n)); break;
     case 'C': printf("c=%d", (int)zix_ring_commit_write(ring, &tx)); break;
     case 'S': printf("ws=%u", zix_ring_write_space(ring)); break;
     case 's': printf("rs=%u", zix_ring_read_space(ring)); break;
@@ -196,7 +203,7 @@ static void trace_case(char** tok, int nt)
     }
     default: printf("?");
     }
-    free(b);
+    if (big) g_free(b); else free(b);
   }
   alarm(0);
   if (vt_oob()) printf(" OOB"); // some access of the ops (or of the setup) fell outside the allocated buffer
